@@ -24,8 +24,9 @@ ARGS = {
 
 POOLS = {
     # F: a class whose instances are falsy (an empty container: __len__ returns 0)
-    "quick": [dict(classes=["P", "Q", "R(P)", "N", "M", "F"], args=["none", "p1", "k1", "boom"])],
-    "thorough": [dict(classes=["P", "Q", "R(P)", "N", "M", "R2(R)", "F"], args=["none", "p1", "p2", "k1", "boom"])],
+    # L: a class whose __init__ constructs Q and raises afterwards (when asked to)
+    "quick": [dict(classes=["P", "Q", "R(P)", "N", "M", "F", "L"], args=["none", "p1", "k1", "boom"])],
+    "thorough": [dict(classes=["P", "Q", "R(P)", "N", "M", "R2(R)", "F", "L"], args=["none", "p1", "p2", "k1", "boom"])],
 }
 
 
@@ -97,16 +98,19 @@ class World:
         self.total_inits = 0
         world = self
 
-        def mk(name, bases=(), nested=None, swallow=None, falsy=False):
+        def mk(name, bases=(), nested=None, swallow=None, falsy=False, late_boom=False):
             def __init__(self, *a, **k):
                 world.total_inits += 1
                 self.init_count = getattr(self, "init_count", 0) + 1
                 self.a = a
                 self.k = dict(k)
-                if a and a[0] == "boom":
+                if a and a[0] == "boom" and not late_boom:
                     raise InitBoom()
                 if nested is not None:
                     self.inner = world.cls[world.names.index(nested)]()
+                    world.last_inner = self.inner
+                if a and a[0] == "boom":
+                    raise InitBoom()       # late: after another singleton has been constructed
                 if swallow is not None:
                     # a nested construction that fails, and whose failure this __init__ survives
                     try:
@@ -135,8 +139,11 @@ class World:
                 c = mk("M", swallow="Q")
             elif n == "F":
                 c = mk("F", falsy=True)
+            elif n == "L":
+                c = mk("L", nested="Q", late_boom=True)
             self.names.append(n)
             self.cls.append(c)
+        self.last_inner = None
         self.model = [None] * len(self.cls)      # instance or None
         self.keep = []
 
@@ -239,7 +246,7 @@ class Sys:
             c, a = op[1], ARGS[op[2]]
             had = w.model[c]
             qi = w.names.index("Q") if "Q" in w.names else None
-            nested = w.names[c] == "N"
+            nested = w.names[c] in ("N", "L")
             swallow = w.names[c] == "M"
             before = w.total_inits
             try:
@@ -249,6 +256,10 @@ class Sys:
                     w.step_bad.append("init-ran-although-an-instance-is-live")
                 elif op[2] != "boom":
                     w.step_bad.append("unexpected-exception")
+                elif w.names[c] == "L" and w.model[qi] is None:
+                    # the failing __init__ had constructed Q before it raised: Q is live from now on
+                    w.model[qi] = w.last_inner
+                    w.keep.append(w.last_inner)
                 # a failed construction must leave no instance: the model stays None
                 return ("exc", "InitBoom")
             except Exception as e:  # noqa: BLE001
